@@ -123,7 +123,7 @@ struct ledger_allocator {
 	template<class V> ledger_allocator(ledger_allocator<V, POCCA, POCMA, POCS, AlwaysEqual> const& o) noexcept : id{o.id}, cls{o.cls} {}  // NOLINT
 
 	// copy construction of a container goes through this; instances of class c select class c (id + 100 marks "selected")
-	ledger_allocator select_on_container_copy_construction() const { return ledger_allocator{id + 100, cls}; }
+	ledger_allocator select_on_container_copy_construction() const { return ledger_allocator{id % 100 + 100, cls}; }   // "a selected copy of instance id % 100" (ArrayOps!Select)
 
 	U* allocate(std::size_t n) {
 		auto& L = ledger();
